@@ -61,5 +61,20 @@ func (b *Builder) DrawInlineImageRaw(dict pdf.Dict, data []byte) {
 		b.Err = err
 		return
 	}
+
+	// Without a length, a reader finds the end of the data by looking for
+	// an end-of-line marker followed by "EI", which image data may contain.
+	// PDF 2.0 has the L entry to make the extent of the data explicit.
+	_, hasL := dict["L"]
+	_, hasLength := dict["Length"]
+	if b.version >= pdf.V2_0 && !hasL && !hasLength && len(data) > 0 {
+		withL := make(pdf.Dict, len(dict)+1)
+		for key, val := range dict {
+			withL[key] = val
+		}
+		withL["L"] = pdf.Integer(len(data))
+		dict = withL
+	}
+
 	b.emit(content.OpInlineImage, dict, pdf.String(data))
 }
